@@ -98,6 +98,8 @@ def validate_calls(report, calls, tag, prop_label="hash"):
     cfg = write_cfg("tr_%s.cfg" % tag, TR_CFG, [], [])
     r = run_tlc("Trace_Hashes", cfg, env={"TRACE_FILE": path}, workers=16, tag=tag)
     os.unlink(path)
+    report.cov["states"] += r.distinct
+    report.cov["transitions"] += r.generated
     report.cov["tlc_runs"].append({"name": "Trace_Hashes", "calls": len(calls), "distinct_states": r.distinct,
                                    "wall_s": round(r.wall, 1)})
     if r.ok:
